@@ -56,6 +56,8 @@ class Facts:
         if c.startswith("<"):
             # "<T as Trait>::m" — look everywhere
             for cr in WORKSPACE_CRATES:
+                if not os.path.exists(os.path.join(self.dir, cr + ".json")):
+                    continue
                 f = self.fns(cr).get(name)
                 if f is not None:
                     return f
